@@ -4,6 +4,7 @@
    find_median_model_rank. *)
 From Coq Require Import ZArith List Bool Lia.
 From Centro Require Import Base.Sx Model.Median Spec.MedianSpec Proofs.MedianCheck Proofs.MedianHist.
+From Centro Require Proofs.MedianGeom.
 Import ListNotations.
 Open Scope Z_scope.
 
@@ -52,6 +53,41 @@ Proof.
                       (all_masks 9) = true) by (vm_compute; reflexivity).
   intros m Hm radius percent Hrp mask. rewrite forallb_forall in H. specialize (H m Hm).
   rewrite forallb_forall in H. specialize (H _ Hrp). apply check_median_iff. exact H.
+Qed.
+
+(* ------------------------------------------------------------------ a wider sweep: every mask of
+   2x4, 4x2, 1x6 and 6x1 images, radii 2, 3, 4 (AsIs = Fixed there), two percentiles *)
+Fixpoint chunk_rows (w n : nat) (l : list bool) : list (list bool) :=
+  match n with O => [] | S m => firstn w l :: chunk_rows w m (skipn w l) end.
+Fixpoint chunk_data (w n : nat) (l : list Z) : list (list Z) :=
+  match n with O => [] | S m => firstn w l :: chunk_data w m (skipn w l) end.
+Definition sweep_vals : list Z := [17; 250; 3; 96; 17; 31; 0; 200].
+Definition sweep2_ok (h w : nat) (rp : Z * Z) (m : list bool) : bool :=
+  let data := chunk_data w h sweep_vals in
+  let mask := chunk_rows w h m in
+  check_median data mask (fst rp) (snd rp) (kernel AsIs data mask (fst rp) (snd rp)).
+Definition sweep2_cfg : list (Z * Z) := [(2, 25); (2, 100); (3, 25); (3, 100); (4, 25); (4, 100)].
+Definition sweep2_shapes : list (nat * nat) := [(2, 4); (4, 2); (1, 6); (6, 1)]%nat.
+
+Theorem sliding_asis_finite2 :
+  forall h w, In (h, w) sweep2_shapes -> forall m, In m (all_masks (h * w)) ->
+  forall radius percent, In (radius, percent) sweep2_cfg ->
+  let data := chunk_data w h sweep_vals in let mask := chunk_rows w h m in
+  MedianSpec data mask radius percent (kernel AsIs data mask radius percent).
+Proof.
+  assert (H : forallb (fun hw : nat * nat => forallb (fun m => forallb (fun rp => sweep2_ok (fst hw) (snd hw) rp m) sweep2_cfg)
+                                          (all_masks (fst hw * snd hw))) sweep2_shapes = true) by (vm_compute; reflexivity).
+  intros h w Hhw m Hm radius percent Hrp data mask. rewrite forallb_forall in H. specialize (H (h, w) Hhw).
+  cbn [fst snd] in H. rewrite forallb_forall in H. specialize (H m Hm). rewrite forallb_forall in H.
+  specialize (H (radius, percent) Hrp). apply check_median_iff. exact H.
+Qed.
+
+(* for radius >= 2 the code as written IS the Fixed variant *)
+Theorem asis_is_fixed data mask radius percent : 2 <= radius ->
+  kernel AsIs data mask radius percent = kernel Fixed data mask radius percent.
+Proof.
+  intros Hr. unfold kernel, mk_env. destruct (MedianGeom.geom_octagon radius ltac:(lia)) as (_ & _ & _ & E & _).
+  cbv zeta in E. rewrite (E Hr). reflexivity.
 Qed.
 
 (* ------------------------------------------------------------------ find_median_model_rank's
